@@ -26,7 +26,47 @@ def _registry():
                 kw["classes"] = [0, 1]
             return cls(**kw)
         reg[name] = fac
+    # ---- non-default configurations ("all stream strategies ... all budgets") ----
+    def explicit(cls, mgr, needs_classes=False):
+        # budget and an explicit manager with ANOTHER budget: documented behaviour = the manager is used as it is (with a warning)
+        def fac(seed, budget):
+            kw = {"budget": budget, "random_state": seed}
+            mkw = {"budget": 0.37 if abs(budget - 0.37) > 1e-9 else 0.2}
+            if mgr is bm.FixedUncertaintyBudgetManager:
+                mkw["classes"] = [0, 1]
+            import inspect
+            if "random_state" in inspect.signature(mgr.__init__).parameters:
+                mkw["random_state"] = seed + 1        # an unseeded manager would legitimately depend on the global generator
+            if needs_classes:
+                kw["classes"] = [0, 1]
+            return cls(budget_manager=mgr(**mkw), **kw)
+        return fac
+    reg["FixedUncertainty{explicit_manager}"] = explicit(st.FixedUncertainty, bm.FixedUncertaintyBudgetManager, True)
+    reg["VariableUncertainty{explicit_manager}"] = explicit(st.VariableUncertainty, bm.VariableUncertaintyBudgetManager)
+    reg["RandomVariableUncertainty{explicit_manager}"] = explicit(st.RandomVariableUncertainty, bm.RandomVariableUncertaintyBudgetManager)
+    reg["Split{explicit_manager}"] = explicit(st.Split, bm.SplitBudgetManager)
+    reg["StreamProbabilisticAL{explicit_manager}"] = explicit(st.StreamProbabilisticAL, bm.BalancedIncrementalQuantileFilter)
+    reg["StreamDensityBasedAL{explicit_manager}"] = explicit(st.StreamDensityBasedAL, bm.DensityBasedSplitBudgetManager)
+    reg["CognitiveDualQueryStrategy{explicit_manager,full_budget}"] = lambda seed, budget: st.CognitiveDualQueryStrategy(
+        budget=budget, budget_manager=bm.VariableUncertaintyBudgetManager(budget=0.37), force_full_budget=True, cognition_window_size=3, random_state=seed)
+    reg["StreamProbabilisticAL{rbf,gamma=mean}"] = lambda seed, budget: st.StreamProbabilisticAL(
+        metric="rbf", metric_dict={"gamma": "mean"}, prior=0.5, m_max=3, budget=budget, random_state=seed)
+    reg["StreamProbabilisticAL{rbf,gamma=0.5}"] = lambda seed, budget: st.StreamProbabilisticAL(
+        metric="rbf", metric_dict={"gamma": 0.5}, budget=budget, random_state=seed)
+    reg["StreamDensityBasedAL{window=3,dist_func_dict}"] = lambda seed, budget: st.StreamDensityBasedAL(
+        window_size=3, dist_func_dict={"metric": "manhattan"}, budget=budget, random_state=seed)
+    reg["CognitiveDualQueryStrategyVarUn{full_budget,threshold=0,window=2}"] = lambda seed, budget: st.CognitiveDualQueryStrategyVarUn(
+        force_full_budget=True, density_threshold=0, cognition_window_size=2, dist_func_dict={"metric": "manhattan"}, budget=budget, random_state=seed)
     return reg
+
+
+def param_snapshot(qs):
+    """constructor parameters with their CONTENTS (dicts, nested managers): query must not change what get_params reports"""
+    from ..snap import deep_snap
+    try:
+        return deep_snap(qs.get_params(deep=True))
+    except Exception:
+        return None
 
 
 def _clf(seed):
@@ -42,7 +82,7 @@ def _clf(seed):
 
 def _query(name, qs, cand, clf, X, y):
     kw = {}
-    if name == "StreamProbabilisticAL":
+    if name.startswith("StreamProbabilisticAL"):
         kw = {"X": X, "y": y}
     return qs.query(cand, clf=clf, return_utilities=True, **kw)
 
@@ -53,7 +93,7 @@ def _update(name, qs, cand, idx, ut):
     kw = {}
     if "utilities" in params:
         kw["utilities"] = ut
-    if "budget_manager_param_dict" in params and name in ("StreamProbabilisticAL",):
+    if "budget_manager_param_dict" in params and name.startswith("StreamProbabilisticAL"):
         kw["budget_manager_param_dict"] = {"utilities": ut}
     return qs.update(cand, idx, **kw)
 
@@ -75,11 +115,19 @@ def strategy_purity(ctx, report_update=True, report_purity=True):
             for step in range(nsteps):
                 cand = rng.integers(0, 4, size=(int(rng.integers(1, 6)), 2)).astype(float)
                 try:
+                    pbefore = param_snapshot(qs)       # constructor parameters: from the very first query on
                     if step > 0:
                         before = S.snapshot(qs)
+                    if step % 3 == 2:          # a "peek" with other training data than the regular query that follows
+                        keep = rng.random(len(y)) < 0.6
+                        _query(name, qs, cand, clf, X[keep], y[keep])
                     idx, ut = _query(name, qs, cand, clf, X, y)
-                    if step > 0:
-                        d = S.diff_snap(before, S.snapshot(qs))
+                    if True:
+                        d = S.diff_snap(before, S.snapshot(qs)) if step > 0 else []
+                        from ..snap import diff_keys
+                        if not d and pbefore is not None:
+                            dp = diff_keys(pbefore, param_snapshot(qs))
+                            d = ["constructor parameter " + str(k) for k in dp[:4]]
                         if d and report_purity:
                             ctx.violation(name, "query_changed_state", f"query changed {d}", {"strategy": name, "seed": seed, "step": step},
                                           what=f"{name}.query changed fitted attributes {d}")
